@@ -364,6 +364,8 @@ Definition do_store (s0 : state) (b : block) : state * out :=
   | _ => (s, OErr)
   end.
 
+(* Blockchain.RevertHead: after a successful stateBackend.RevertHead the aggregated bloom filter cache
+   is reset (/repo commit 5bb6f6f); a failed revert leaves it alone. *)
 Definition do_revert (s0 : state) : state * out :=
   match chain s0 with
   | [] => (s0, OErr)
@@ -384,14 +386,14 @@ Definition do_revert (s0 : state) : state * out :=
                 match w_clear lw cur with
                 | Some w2 =>
                     (Build_state (removelast (chain s)) (mremove (aligned cur) (persisted s))
-                                 (snapshot s) (Ready w2 cur) (cache s), OOk)
+                                 (snapshot s) (Ready w2 cur) [], OOk)
                 | None => (set_running s (Ready lw cur), OErr)
                 end
             end
           else
             match w_clear w cur with
             | Some w2 =>
-                (Build_state (removelast (chain s)) (persisted s) (snapshot s) (Ready w2 cur) (cache s), OOk)
+                (Build_state (removelast (chain s)) (persisted s) (snapshot s) (Ready w2 cur) [], OOk)
             | None => (set_running s (Ready w cur), OErr)
             end
       | _ => (s, OErr)
